@@ -3,6 +3,7 @@
 #
 # SPDX-License-Identifier: Apache-2.0
 import collections
+import errno
 import fnmatch
 import io
 import json
@@ -294,6 +295,10 @@ class BanditManager:
 
             try:
                 if fname == "-":
+                    if sys.stdin is None:
+                        # started with standard input closed: a target
+                        # that cannot be opened, like any other
+                        raise OSError(errno.EBADF, os.strerror(errno.EBADF))
                     open_fd = os.fdopen(sys.stdin.fileno(), "rb", 0)
                     fdata = io.BytesIO(open_fd.read())
                     new_files_list = [
